@@ -398,13 +398,20 @@ Definition native_defs (t : list (str * (nat * bool))) : library :=
 
 (** Interpreter::default(): a fresh root frame and register_stdlib_factories (which parses
     the bundled library sources with the current syntax table and unwraps) *)
-Definition new_instance (base_text write_text : list char) (st : state) (syn : sframe)
+(** the table of a native library: the procedures the model knows, and - by name only - every further one that
+    the Rust source registers ([names], scanned from base.rs / write.rs on every run): it is bound and can be exported
+    and imported like the others; calling it is outside the model ([proc_arity] has no entry: PUnmodelled) *)
+Definition native_lib (t : list (str * (nat * bool))) (names : list str) : library :=
+  native_defs t ++
+  map (fun n => (n, VProcB n)) (filter (fun n => negb (existsb (fun e => str_eqb n (fst e)) t)) names).
+
+Definition new_instance (base_text write_text : list char) (base_names write_names : list str) (st : state) (syn : sframe)
   : res instance * state * sframe :=
   let '(env, st1) := alloc_frame st None in
   let i0 := {| i_env := env; i_factories := []; i_in_progress := []; i_libraries := [];
                i_import_end := false; i_progdir := None |} in
-  let i1 := register_factory i0 name_ruschm_base (FNative (native_defs builtin_table)) in
-  let i2 := register_factory i1 name_ruschm_write (FNative (native_defs write_table)) in
+  let i1 := register_factory i0 name_ruschm_base (FNative (native_lib builtin_table base_names)) in
+  let i2 := register_factory i1 name_ruschm_write (FNative (native_lib write_table write_names)) in
   let c := {| c_inst := i2; c_st := st1; c_syn := syn |} in
   match factory_from_text name_scheme_base base_text c with
   | (Ok fb, c1) =>
